@@ -218,6 +218,7 @@ def run(ctx):
     # ---- phase 1: shapes by constant evaluation of the captures
     shapes = {}
     I0 = Interp(repo)
+    I0.uninterpreted_arith = True
     install(I0, repo, concrete=True)
     for fname, raw in sd:
         for dname, (ci, fb) in decoders.items():
@@ -367,6 +368,7 @@ def explore_or_blame(run, max_paths):
 
 def analyse_shape(ctx, repo, raw, dname, fb, fam_count, variant, concrete=()):
     I = Interp(repo)
+    I.uninterpreted_arith = True   # lengths and counters computed from symbolic fields are compared structurally
     install(I, repo)
     hdap_ci = repo.cls(f"{PMOD}.hdap", "HDAP")
 
